@@ -5,10 +5,14 @@
               (Spec/StateSpace.lean: the state and output equations of a realisation reproduce b(s)/a(s)).
   Model side: `nodalEq`, `meshEq` (Model/Formulations.lean), `ccf`, `ocf`, `dcf` (Model/Realisations.lean).
   Findings F13, C15-b, C15-d, C15-g, C15-h, C15-j, C15-f are fixed in /repo: the models mirror the fixed code
-  and the theorems are at full strength.  Finding C15-c (mesh analysis identified parallel components by
-  node pair): the model mirrors the repaired code (fix-C15-c: a component is identified by its graph edge,
-  `pe = true`) and `mesh_eqs_hold` is stated for it at full strength; the pre-fix variant `pe = false` stays
-  executable for the correspondence on a tree that does not have the fix yet.
+  and the theorems are at full strength.  Finding C15-c (mesh analysis identifies parallel components by
+  node pair) is KNOWN and open: `pe = false` is the code as it is in /repo -- the CLAIMED theorem about it is
+  `mesh_eqs_hold_partial` (graphs without parallel components; the excluded region is covered by the oracle of
+  harness/c15.py on the real code, which reports KNOWN-FINDING C15-c).  `pe = true` is the code with the PROPOSED
+  patch fix-C15-c, which is NOT applied to /repo (it needs a correction of the unit test that pins the defect):
+  `mesh_eqs_hold` (and Props/C15Mesh.lean) are theorems about that patch, not about /repo.
+  Finding C15-k (mutual couplings are ignored by nodal and mesh analysis) is KNOWN and open: `NodalDefined` /
+  `MeshDefined` require uncoupled inductors, the oracle covers circuits with K lines on the real code.
   Only property theorems live here; helper lemmas are in Proofs/Formulations.lean, Proofs/Realisations.lean.
 -/
 import Lcapy.Proofs.Formulations
@@ -21,8 +25,9 @@ variable {K : Type} [Field K]
 /-! ## nodal analysis -/
 
 /-- the nodal formulation is defined for the netlist: one-ports R, Y, C, L, V, I only (the code
-    raises for dependent sources and two-ports), no shorted component, inductors uncoupled and with
-    finite admittance 1/(sL) (so not in DC, where the code prints `zoo`). -/
+    raises for dependent sources and two-ports), no shorted component, inductors with
+    finite admittance 1/(sL) (so not in DC, where the code prints `zoo`) and UNCOUPLED: the code does not refuse
+    K lines, it ignores them (finding C15-k, known) -- that region is excluded here and covered by the oracle. -/
 def NodalDefined (kind : Kind) (s : K) (cs : List (Cpt K)) : Prop := ∀ c ∈ cs, OkCpt kind s c
 
 /-- **nodal_eqs_hold**: for every netlist of any size, in every analysis kind, at
@@ -112,8 +117,9 @@ def MeshConsistent (patched : Bool) (kind : Kind) (s : K) (cs : List (Cpt K)) (l
   ∀ ab ∈ loopPairs loop, ∀ idx c, component (buildGraph cs) ab.1 ab.2 = some (idx, c) → isV c = false →
     meshCurrent patched (buildGraph cs) loops idx c im = -(through kind s x c)
 
-/-- **mesh_eqs_hold** (the code with fix-C15-c, `pe = true`: a component is the graph edge that holds it, parallel
-    components included): for every netlist, every list of loops handed in by the cycle
+/-- **mesh_eqs_hold** -- a theorem about the PROPOSED PATCH fix-C15-c (`pe = true`: a component is the graph edge that
+    holds it, parallel components included), NOT about the code in /repo (for that see `mesh_eqs_hold_partial`):
+    for every netlist, every list of loops handed in by the cycle
     search and every loop among them that passes the decidable `isSimpleCycle` check against the
     circuit graph, the KVL equation `_process_loop` writes is satisfied by any solution of the
     circuit laws, with mesh currents that carry that solution. -/
@@ -140,10 +146,27 @@ example : MeshConsistent true .dc 0 exCkt [exLoop] exSol (fun _ => 3/4) exLoop :
   · simp only [meshCurrent, nodes2, if_true, exAcc2]
     norm_num [accCoeffs, lsum, through, exSol, vd, volt]
 
-/- The pre-fix code (components identified by their node pair, `pe = false`, finding C15-c) is kept in the model only
-   so that the correspondence can tell which of the two a given source tree is; the statement about it
-   (`Formulations.mesh_eqs_hold_prefix`: graphs without dummy nodes only) lives in Proofs/Formulations.lean and is
-   not part of the property: for `V1 1 0 step 6; R1 1 2 3; R2 2 0 5; R3 2 0 7` the pre-fix equation is false. -/
+/- Full statement for the code as it is -- FALSE (finding C15-c, known):
+   theorem mesh_eqs_hold_asis … (hcons : MeshConsistent false …) (hf : meshEq false … = some f) : f.eval im = 0
+   fails for `V1 1 0 step 6; R1 1 2 3; R2 2 0 5; R3 2 0 7` (parallel R2, R3: prints 12 I1 − 12 I2 = 0). -/
+
+/-- **mesh_eqs_hold_partial** -- THE CLAIMED THEOREM ABOUT THE CODE AS IT IS IN /repo (`pe = false`): the same
+    conclusion when the graph has no dummy node, i.e. no two components join the same pair of nodes (C15-c).
+    The excluded region is covered by the oracle on the real code (KNOWN-FINDING C15-c).  Initial conditions are
+    included (C15-d is fixed); inductors are uncoupled (`MeshDefined`; C15-k). -/
+theorem mesh_eqs_hold_partial (kind : Kind) (s : K) (cs : List (Cpt K)) (x : Ix → K) (loops : List (List GNode))
+    (im : Nat → K) (hdef : MeshDefined kind s cs) (hlaws : Laws kind s cs x) (loop : List GNode)
+    (hcyc : isSimpleCycle (buildGraph cs) loop = true)
+    (hnopar : ∀ e ∈ buildGraph cs, ∃ n, e.b = GNode.real n)
+    (hcons : MeshConsistent false kind s cs loops x im loop)
+    (f : MeshForm K) (hf : meshEq false kind s (buildGraph cs) loops loop = some f) : f.eval im = 0 :=
+  Formulations.mesh_eqs_hold_prefix kind s cs x loops im hdef hlaws loop hcyc hnopar hcons f hf
+
+/-- non-vacuity of `mesh_eqs_hold_partial`: the example circuit has no parallel components -/
+example : ∀ e ∈ buildGraph exCkt, ∃ n, e.b = GNode.real n := by
+  intro e he
+  simp [buildGraph, enum, exCkt, addCpt, nodes2, hasEdge, Edge.joins, List.range, List.range.loop] at he
+  rcases he with rfl | rfl | rfl <;> exact ⟨_, rfl⟩
 
 /-! ## canonical state-space realisations of a transfer function (continuous and discrete time) -/
 
